@@ -113,6 +113,39 @@ func main() {
 		}
 		return map[string]interface{}{"runs": runs, "from": lo, "to": hi - 1}
 	}
+	// the lexer's own view of the identifier alphabet: for every code point c, is 甲c ONE identifier token (c continues a name)
+	// and is `甲c` (backtick-quoted) one identifier?  -> runs of accepted code points
+	commands["idlex"] = func(in map[string]interface{}) map[string]interface{} {
+		lo, hi := int(in["lo"].(float64)), int(in["hi"].(float64))
+		one := func(src []rune, wantLit int) bool {
+			defer func() { recover() }()
+			l := syntax.NewLexer(src)
+			tk, err := zh.NextToken(l)
+			if err != nil || tk.Type != zh.TypeIdentifier || tk.StartIdx != 0 || tk.EndIdx != len(src) || len(tk.Literal) != wantLit {
+				return false
+			}
+			tk2, err := zh.NextToken(l)
+			return err == nil && tk2.Type == zh.TypeEOF
+		}
+		collect := func(f func(c int) bool) [][]int {
+			runs := [][]int{}
+			start := -1
+			for c := lo; c <= hi+1; c++ {
+				v := c <= hi && f(c)
+				if v && start == -1 {
+					start = c
+				}
+				if !v && start != -1 {
+					runs = append(runs, []int{start, c - 1})
+					start = -1
+				}
+			}
+			return runs
+		}
+		plain := collect(func(c int) bool { return one([]rune{0x7532, rune(c)}, 2) })
+		quoted := collect(func(c int) bool { return one([]rune{'`', 0x7532, rune(c), '`'}, 2) })
+		return map[string]interface{}{"plain": plain, "quoted": quoted}
+	}
 	// {"cp":c} -> {"in":bool}
 	commands["idin"] = func(in map[string]interface{}) map[string]interface{} {
 		return map[string]interface{}{"in": syntax.IdInRange(rune(int(in["cp"].(float64))))}
